@@ -108,6 +108,44 @@ class Stream:
         report("stop " + self.name)
         self.f.close()
 
+class MemBuf:
+    """a user stream that keeps everything in memory until flush() and reports line_buffering"""
+    encoding = "utf8"
+    line_buffering = True
+    def __init__(self, path):
+        self.fd = os.open(path, os.O_WRONLY | os.O_CREAT | os.O_APPEND, 0o644)
+        self.buf = []
+    def write(self, m):
+        self.buf.append(m)
+    def flush(self):
+        data = "".join(self.buf).encode("utf8")
+        self.buf = []
+        while data:
+            data = data[os.write(self.fd, data):]
+
+def make_stream(s):
+    """the stream object handed to logger.add(): the file objects are passed AS THEY ARE"""
+    import io
+    impl, path = s.get("impl", "wrapper"), s["path"]
+    if impl == "block":
+        return open(path, "a", encoding="utf8", newline="")
+    if impl == "line":
+        return open(path, "a", buffering=1, encoding="utf8", newline="")
+    if impl == "bigbuf":
+        return open(path, "a", buffering=1 << 16, encoding="utf8", newline="")
+    if impl == "wt":
+        return io.TextIOWrapper(open(path, "ab", buffering=0), encoding="utf8", newline="", write_through=True)
+    if impl == "rawwrap":
+        return io.TextIOWrapper(open(path, "ab", buffering=0), encoding="utf8", newline="")
+    if impl == "linewrap":
+        return io.TextIOWrapper(open(path, "ab"), encoding="utf8", newline="", line_buffering=True)
+    if impl == "stderr":
+        return sys.stderr          # redirected by the parent to s["path"]
+    if impl == "membuf":
+        return MemBuf(path)
+    return Stream(s["name"], path, s.get("buffering", -1), s.get("slow", 0), bool(s.get("stoppable")),
+                  bool(s.get("flushable", True)))
+
 def capture(name):
     def sink(m):
         report("text %s %d %s" % (name, m.record["extra"]["i"], enc(str(m))))
@@ -153,8 +191,7 @@ for s in spec["sinks"]:
             kw["retention"] = s["retention"]
         IDS[s["name"]] = logger.add(s["path"], format=fmt, serialize=ser, enqueue=bool(s.get("enqueue")), **kw)
     else:
-        st = Stream(s["name"], s["path"], s.get("buffering", -1), s.get("slow", 0), bool(s.get("stoppable")),
-                    bool(s.get("flushable", True)))
+        st = make_stream(s)
         IDS[s["name"]] = logger.add(st, format=fmt, serialize=ser, enqueue=bool(s.get("enqueue")), colorize=False)
 
 if die["mode"] == "mid":
@@ -210,10 +247,22 @@ def run_stage(dirpath, child_py, spec, idx):
     env = dict(os.environ)
     env["PYTHONPATH"] = core.REPO
     env.pop("LOGURU_AUTOINIT", None)
+    env.pop("PYTHONUNBUFFERED", None)      # sys.stderr as a regular (line-buffered) text stream
+    env["PYTHONIOENCODING"] = "utf8"
     env["PYTHONDONTWRITEBYTECODE"] = "1"
+    env.update(spec.get("env", {}))
+    cmd = [PY, child_py, sp]
+    if spec.get("close_stderr"):
+        cmd = ["/bin/sh", "-c", 'exec "$0" "$@" 2>&-'] + cmd     # a process started without fd 2: sys.stderr is None
+    err_sink = [x for x in spec["sinks"] if x.get("impl") == "stderr"]
     with open(errp, "wb") as ef:
-        p = subprocess.Popen([PY, child_py, sp], cwd=dirpath, pass_fds=(w,), stdin=subprocess.DEVNULL,
-                             stdout=ef, stderr=ef, env=env)
+        if err_sink:
+            with open(os.path.join(dirpath, err_sink[0]["path"]), "ab") as sf:
+                p = subprocess.Popen(cmd, cwd=dirpath, pass_fds=(w,), stdin=subprocess.DEVNULL,
+                                     stdout=ef, stderr=sf, env=env)
+        else:
+            p = subprocess.Popen(cmd, cwd=dirpath, pass_fds=(w,), stdin=subprocess.DEVNULL,
+                                 stdout=ef, stderr=ef, env=env)
     os.close(w)
     buf = b""
     deadline = time.time() + CHILD_TIMEOUT
@@ -416,6 +465,61 @@ def stream_sink(**kw):
     return d
 
 
+# every kind of flushable stream a user may hand to add(): (has flush, reports line_buffering, write_through)
+STREAM_IMPLS = {
+    "block": (1, 0, 0),      # open(path, "a")
+    "line": (1, 1, 0),       # open(path, "a", buffering=1)
+    "bigbuf": (1, 0, 0),     # open(path, "a", buffering=65536)
+    "wt": (1, 0, 1),         # TextIOWrapper(unbuffered binary, write_through=True)
+    "rawwrap": (1, 0, 0),    # TextIOWrapper(unbuffered binary)
+    "linewrap": (1, 1, 0),   # TextIOWrapper(buffered binary, line_buffering=True)
+    "stderr": (1, 1, 0),     # the process's own sys.stderr (redirected to a file by the parent)
+    "membuf": (1, 1, 0),     # a user class buffering in memory until flush()
+}
+
+
+def stream_attrs(sink):
+    impl = sink.get("impl", "wrapper")
+    if impl in STREAM_IMPLS:
+        return STREAM_IMPLS[impl]
+    return (1 if sink.get("flushable", True) else 0, 0, 0)   # the wrapper class exposes neither attribute
+
+
+def all_streams(rng, **kw):
+    impls = list(STREAM_IMPLS)
+    rng.shuffle(impls)
+    return [stream_sink(name="S%d" % i, path=("E%d.err" if impl == "stderr" else "S%d.txt") % i, impl=impl, **kw)
+            for i, impl in enumerate(impls)]
+
+
+def gen_stream_messages(rng, n):
+    """programs for stream sinks: ordinary calls mixed with texts WITHOUT a line end (raw calls,
+    progress output in several parts) - for a flushable stream every returned call is durable"""
+    msgs = []
+    while len(msgs) < n:
+        r = rng.below(10)
+        i = len(msgs)
+        if r < 4:
+            msgs += gen_messages(rng, 1, False)
+        elif r < 7:
+            kind, text = rng.choice(SHAPES[:1] + SHAPES[4:10])      # no interior line end
+            msgs.append({"text": text + " #%d" % i, "raw": True, "shape": "raw-no-newline"})
+        elif r < 9:
+            msgs += [{"text": t, "raw": True, "shape": "raw-no-newline"} for t in ("Loading #%d" % i, "...", "50%")]
+        else:
+            msgs.append({"text": "é" * rng.choice([1, 4095, 8193]) + " #%d" % i, "raw": True, "shape": "raw-no-newline-long"})
+    return msgs[:n]
+
+
+def real_stream(rng, **kw):
+    impl = rng.choice(sorted(STREAM_IMPLS))
+    return stream_sink(impl=impl, path="E.err" if impl == "stderr" else "S.txt", **kw)
+
+
+# environments an interpreter may be started in (the exit clause holds in all of them)
+ENVIRONMENTS = [{}, {"env": {"LOGURU_AUTOINIT": "False"}}, {"close_stderr": True}]
+
+
 def gen_cases(ctx):
     rng = ctx.rng
     cases = []
@@ -451,7 +555,7 @@ def gen_cases(ctx):
             for mode in modes:
                 if mode == "mid" and k >= K:
                     mode = "os_exit"
-                add("crash", [{"sinks": [file_sink(rotation=True, compression=comp), stream_sink()],
+                add("crash", [{"sinks": [file_sink(rotation=True, compression=comp), real_stream(rng)],
                                "messages": msgs, "die": {"mode": mode, "k": k}}])
     # A3: death while the rotation is in progress (before / after rename, inside the compression callable)
     for rep in range(ctx.n(3, 12) * boost):
@@ -478,11 +582,26 @@ def gen_cases(ctx):
     for rep in range(ctx.n(2, 8) * boost):
         msgs = gen_messages(rng, 5, False, allow_f7=True)
         k = rng.range(1, 5)
-        add("crash", [{"sinks": [file_sink(), stream_sink()], "messages": msgs, "die": {"mode": "os_exit", "k": k}}])
+        add("crash", [{"sinks": [file_sink(), real_stream(rng)], "messages": msgs, "die": {"mode": "os_exit", "k": k}}])
     # (short texts: beyond 8 KiB of pending bytes CPython spills early, which the model does not describe)
     msgs = gen_messages(rng, 3, False, raw_nl=False, small=True)
-    add("crash", [{"sinks": [file_sink(format="dyn_nonl"), stream_sink(format="dyn_nonl")], "messages": msgs,
+    add("crash", [{"sinks": [file_sink(format="dyn_nonl"), real_stream(rng, format="dyn_nonl")], "messages": msgs,
                    "die": {"mode": "os_exit", "k": rng.range(1, 3)}}])
+    # A7: stream sinks of EVERY buffering kind at once (block / line / big buffer / write-through / text layer over
+    #     raw / line-buffering wrapper / the process's stderr / a user class buffering until flush), texts with and
+    #     without a line end, death after every k: for a flushable stream every returned call is durable
+    for rep in range(ctx.n(1, 3) * boost):
+        Ks = ctx.n(6, 20)
+        msgs = gen_stream_messages(rng, Ks)
+        fmt = "dyn_nonl" if rep % 2 == 1 else "static"
+        flip = rng.below(3)
+        for k in range(Ks + 1):
+            all_modes = ["os_exit", "sigkill", "mid"]
+            modes = all_modes if not ctx.quick else [all_modes[(k + flip) % 3]]
+            for mode in modes:
+                if mode == "mid" and k >= Ks:
+                    mode = "sigkill"
+                add("crash", [{"sinks": all_streams(rng, format=fmt), "messages": msgs, "die": {"mode": mode, "k": k}}])
     # A6: CPython io model: a stream WITHOUT flush over a block-buffered file (the property claims nothing)
     #     (small texts only: beyond 8 KiB of pending bytes CPython spills early, which the model does not describe)
     small = [{"text": "%s #%d" % (rng.choice(SHAPES[:7])[1], i), "shape": "small"} for i in range(3)]
@@ -490,13 +609,17 @@ def gen_cases(ctx):
                    "die": {"mode": "os_exit", "k": 3}}], io_only=True)
 
     # B: normal interpreter exit
+    nexit = 0
     for mode in ("return", "sys_exit", "unhandled"):
         for enq in (False, True):
             for rep in range(ctx.n(1, 3) * boost):
                 msgs = gen_messages(rng, K, False, allow_f7=(rep % 2 == 1))
-                add("exit", [{"sinks": [file_sink(enqueue=enq, compression="gz"),
-                                        stream_sink(enqueue=enq, stoppable=True, slow=0.03 if enq else 0)],
-                              "messages": msgs, "die": {"mode": mode}}])
+                st = {"sinks": [file_sink(enqueue=enq, compression="gz"),
+                                stream_sink(enqueue=enq, stoppable=True, slow=0.03 if enq else 0)],
+                      "messages": msgs, "die": {"mode": mode}}
+                st.update(ENVIRONMENTS[nexit % 3])
+                nexit += 1
+                add("exit", [st])
     for enq in (False, True):
         # rotation configured: no end-of-life compression; the slow rotation callable keeps the queue busy
         msgs = gen_messages(rng, K, True)
@@ -645,8 +768,11 @@ def judge(ctx, case, res, lines_out):
                 lines_out.append((line.rstrip(), ("disk", real), case, name))
             else:
                 kk = min(k + 1, len(toks)) if die["mode"] == "mid" else k   # mid: the sink wrote the text in flight
-                line = "stream %d %d %d %s" % (1 if sink.get("flushable", True) else 0,
-                                               1 if sink.get("buffering", -1) == 1 else 0, kk, " ".join(toks[:kk]))
+                hf, lba, wt = stream_attrs(sink)
+                # how the underlying file really buffers (only matters when no flush happens)
+                real_lb = 1 if (sink.get("impl") in ("line", "linewrap", "stderr")
+                                or (sink.get("impl", "wrapper") == "wrapper" and sink.get("buffering", -1) == 1)) else 0
+                line = "stream %d %d %d %d %d %s" % (hf, lba, wt, real_lb, kk, " ".join(toks[:kk]))
                 lines_out.append((line.rstrip(), ("os", decode(files.get(sink["path"], b""))), case, name))
         return viol
 
@@ -818,7 +944,11 @@ def run(ctx):
             for st in case["stages"]:
                 for m in st["messages"][:k if case["kind"] == "crash" else None]:
                     ctx.stat("shape:" + m.get("shape", "?"))
+                ctx.stat("env:" + ("no-stderr" if st.get("close_stderr") else
+                                   ",".join("%s=%s" % kv for kv in sorted(st.get("env", {}).items())) or "default"))
                 for s in st["sinks"]:
+                    if s["kind"] == "stream":
+                        ctx.stat("stream_impl:" + s.get("impl", "wrapper"))
                     ctx.stat("sink:%s%s%s%s" % (s["kind"], "+enqueue" if s.get("enqueue") else "",
                                                 "+rotation" if s.get("rotation") else "",
                                                 "+compression" if s.get("compression") else ""))
